@@ -463,6 +463,83 @@ def carry_history(focus):
     return h.ops
 
 
+def unbind_history(focus):
+    """unbind handlers that act: a watch bound with UNBIND is cancelled from outside; its handler registers timers whose
+    deadlines fall before / between / equal to / after those of the cancelled timer and its neighbours, deferred
+    callbacks (also BIND_FIRST, while the cancelled one is the head of the queue or not), or watches of other kinds"""
+    h = Hist(focus)
+    stats["histories_unbind"] += 1
+    base = h.clock
+    offs = [rng.choice([0, 1000, 5000, 5000, 10000, 20000]) for _ in range(rng.choice([1, 2, 3, 3, 4]))]
+    timers = []
+    for o in sorted(offs) if rng.random() < 0.7 else offs:
+        k = h.slot("timer")
+        f = rng.choice([2, 2, 6, 3, 0, 4])
+        behs = []
+        if rng.random() < 0.2:
+            h.add_beh(k, "timer", 0, behs)
+        h.ops += behs
+        d = base + o
+        h.ops.append(f"timer_at {k} {d // 1000000} {d % 1000000} {f}" if rng.random() < 0.7 else f"timer {k} {o // 1000} {f}")
+        timers.append((k, o)); h.top_live.append(k)
+    laters = []
+    for _ in range(rng.choice([0, 1, 2, 3])):
+        k = h.slot("later")
+        f = rng.choice([2, 2, 6, 3, 0])
+        h.ops.append(f"later {k} {f}")
+        if f & 1: laters.insert(0, k)
+        else: laters.append(k)
+        h.top_live.append(k)
+    others = []
+    for _ in range(rng.choice([0, 0, 1, 2])):
+        n0 = len(h.ops)
+        h.reg_top(rng.choice(["io", "signal", "process"]))
+        others.append(h.next_slot - 1)
+    # handlers
+    cands = [k for k, _ in timers] + laters + others
+    rng.shuffle(cands)
+    victims = cands[:rng.choice([1, 1, 2, 3])]
+    for v in victims:
+        acts = []
+        for _ in range(rng.choice([1, 1, 2])):
+            c = rng.random()
+            if c < 0.5:
+                n = h.slot("timer")
+                o = rng.choice([o for _, o in timers] or [5000]) + rng.choice([-1000, -1, 0, 1, 1000, -3000, 3000])
+                d = base + o
+                acts.append(f"A,{n},{d // 1000000},{d % 1000000},{h.flags()}" if rng.random() < 0.8 else f"T,{n},{max(0, o // 1000)},{h.flags()}")
+                stats["ubeh_timer"] += 1
+            elif c < 0.85:
+                n = h.slot("later")
+                acts.append(f"L,{n},{rng.choice([1, 1, 3, 0, 2, 5])}")
+                stats["ubeh_later"] += 1
+            else:
+                behs = []
+                acts.append(h.gen_reg_action(2, behs))
+                h.ops += behs
+                stats["ubeh_other"] += 1
+            if rng.random() < 0.25:
+                h.add_beh(n if c < 0.85 else h.next_slot - 1, "timer", 1, h.ops)
+        h.ops.append(f"ubeh {v} " + " ".join(acts)); stats["ubeh"] += 1
+    for _ in range(rng.randint(0, 2)):
+        h.step()
+    order = victims[:]
+    rng.shuffle(order)
+    for v in order:
+        if rng.random() < 0.9:
+            h.ops.append(f"cancel {v}"); stats["cancel_top_ubeh"] += 1
+            if v in h.top_live: h.top_live.remove(v)
+        if rng.random() < 0.4:
+            h.ops.append(rng.choice(["tick", "clock 5000", "clock 1000", "tickhang"]))
+    for _ in range(rng.randint(0, 4)):
+        h.step()
+    h.ops.append(f"clock {rng.choice([5000, 10000, 30000])}")
+    h.finish()
+    stats["histories"] += 1
+    stats["ops_len_%02d" % (len(h.ops) // 10 * 10)] += 1
+    return h.ops
+
+
 def winch_history(focus):
     """stand-alone terminals observing SIGWINCH next to the instance (`new … tt`): a second terminal joins / leaves the
     observers (tickit_term_observe_sigwinch) after the loop has started watching SIGWINCH; the signal then arrives
@@ -584,6 +661,8 @@ def random_history(focus):
         return sigchld_history(focus)
     if c < 0.42:
         return winch_history(focus)
+    if c < 0.52:
+        return unbind_history(focus)
     fb = rng.random() < 0.25
     h = Hist(focus, fb)
     if fb:
